@@ -61,7 +61,9 @@ LEAVES = [
      [P("data_len", "data_len")], "bool", {}),
     ("Reply", "l_duplicate", "_listener.py", "AsyncListener._process_datagram_at_time", ("if", "self.data == data", 0),
      [P("self.data == data", "same_data", "bool"), P("now", "now"), P("self.last_time", "last_time"),
-      P("self.last_message is None", "no_last_message", "bool"), P("self.last_message.has_qu_question()", "last_has_qu", "bool")], "bool", {}),
+      P("self.last_message is None", "no_last_message", "bool"),
+      # fix D11c: the exemption applies to *queries* with a QU question; the model's flag means exactly that
+      P("self.last_message.is_query() and self.last_message.has_qu_question()", "last_has_qu", "bool")], "bool", {}),
     ("Reply", "l_not_truncated", "_listener.py", "AsyncListener.handle_query_or_defer", ("if", "msg.truncated", 0),
      [P("msg.truncated", "truncated", "bool")], "bool", {}),
     # ---- incoming.py: the header bits the listener and the responder look at
